@@ -144,7 +144,11 @@ def finish(pid, tier, level, results, t0, *, rule, bounds, assumptions, techniqu
     violations, inconclusive, samples, functions, lemmas = [], [], [], set(), {}
     known_hits = {}
     checks = {}
+    notes = []
     for r in results:
+        for n_ in r.get("notes", []):
+            if n_ not in notes:
+                notes.append(n_)
         stats.merge(E.Stats.from_dict(r["stats"]))
         for v in r["violations"]:
             violations.append(v)
@@ -202,6 +206,7 @@ def finish(pid, tier, level, results, t0, *, rule, bounds, assumptions, techniqu
         "float_lemmas": lemmas,
         "traces_validated_against_impl": int(witness_checked),
         "known_findings_hit": sorted(known_hits),
+        "notes": notes[:20],
         "inconclusive": inconclusive[:20],
         "n_inconclusive": len(inconclusive),
     }
@@ -225,6 +230,8 @@ def finish(pid, tier, level, results, t0, *, rule, bounds, assumptions, techniqu
     os.makedirs(evdir, exist_ok=True)
     with open(os.path.join(evdir, pid + ".json"), "w") as fh:
         json.dump(ev, fh, indent=1, default=str)
+    for n_ in notes[:5]:
+        print("NOTE property=%s %s" % (pid, n_[:300]))
     for k in sorted(known_hits):
         print("KNOWN-FINDING: property=%s %s" % (pid, known_hits[k]["what"]))
     if replay_paths:
